@@ -7,7 +7,9 @@ import sys
 from sim import world
 from sim.model import emit, prog as progmod, ref
 
-RENDERED_RE = re.compile(r"<!--\s*_RENDERED\s.*?-->", re.S)
+# every HTML comment: the generated programs contain none, so whatever comment appears is the library's bookkeeping
+# marker (its text is an internal format)
+RENDERED_RE = re.compile(r"<!--.*?-->", re.S)
 DJC_ID_RE = re.compile(r'\sdata-djc-id-[0-9a-zA-Z]{6}(?:="")?')
 DATA_O_RE = re.compile(r'\sdata-o="[^"]*"')
 
